@@ -99,11 +99,28 @@ class InjectedInterrupt(KeyboardInterrupt):
     pass
 
 
+_INJECTED_CLASSES: dict[type, type] = {}
+
+
+def _injected_oserror_class(code: int) -> type:
+    """The class the interpreter itself raises for this errno (``PermissionError`` for EACCES / EPERM,
+    ``FileExistsError`` for EEXIST, ... plain ``OSError`` otherwise), so that code under test which
+    catches a *specific* subclass (``except PermissionError``) sees the injected failure exactly as it
+    would see the real one."""
+    real = type(OSError(code, "x"))
+    if real is OSError:
+        return InjectedOSError
+    cls = _INJECTED_CLASSES.get(real)
+    if cls is None:
+        cls = _INJECTED_CLASSES[real] = type("Injected" + real.__name__, (real,), {})
+    return cls
+
+
 def make_exc(spec: list) -> BaseException:
     kind = spec[0]
     if kind == "OSError":
         code = getattr(_errno, spec[1])
-        return InjectedOSError(code, os.strerror(code) + " [injected]")
+        return _injected_oserror_class(code)(code, os.strerror(code) + " [injected]")
     if kind == "RuntimeError":
         return InjectedError("injected failure")
     if kind == "MemoryError":
@@ -115,7 +132,8 @@ def make_exc(spec: list) -> BaseException:
 
 class Plan:
     """Numbered fault positions.  ``faults`` maps ``(site, k)`` to an action
-    ``[how, excspec]`` with how in raise | raise_after_half | die | die_after_half."""
+    ``[how, excspec]`` with how in raise | raise_after_half | die | die_after_half | exhaust |
+    raise_always (this call and every later call of the site fail alike)."""
 
     def __init__(self, faults: list | None = None) -> None:
         self.faults: dict[tuple[str, int], list] = {}
@@ -134,6 +152,11 @@ class Plan:
         self.raw_refused = 0                       # write(2) calls refused after the device failed
         self.exhausted = False                     # descriptor exhaustion in force (until ``restore``)
         self.reached: Counter[str] = Counter()     # "<site> via <module.function>": which call implemented the effect
+        # persistent faults (how == "raise_always"): from the k-th call on EVERY call of that site fails the
+        # same way (an immutable / locked destination, a directory without write permission: retrying
+        # does not help).  site -> exception spec, and how many calls were refused per site.
+        self.sticky: dict[str, list] = {}
+        self.sticky_refused: Counter[str] = Counter()
 
     def hit(self, site: str) -> list | None:
         with self.lock:
@@ -141,7 +164,13 @@ class Plan:
             k = self.counts[site]
             self.log.append((site, k))
             action = self.faults.get((site, k))
+            if action is None and site in self.sticky:
+                self.sticky_refused[site] += 1
+                return ["raise", self.sticky[site]]
             if action is not None:
+                if action[0] == "raise_always":
+                    self.sticky[site] = action[1]
+                    self.sticky_refused[site] += 1
                 self.fired.append((site, k, action[0], self.replaced == 0))
                 self.counts_at_fire.append(dict(self.counts))
                 if self.on_fire is not None:
